@@ -160,3 +160,36 @@ def canary(env):
     X, Y = group_elem(env, 'SE3', 'X'), group_elem(env, 'SE3', 'Y')
     env.eq('matrix_of_product_swapped', S.group_matrix(T, 'SE3', op.SE3_Mul.forward(X, Y)),
            S.group_matrix(T, 'SE3', Y) @ S.group_matrix(T, 'SE3', X))
+
+
+@bounded('C03.roundoff_drift', functions=[f'{LT}:LieTensor.__matmul__', f'{LT}:LieTensor.Inv', f'{LT}:LieTensor.add_', f'{LT}:LieTensor.Retr'])
+def drift(rng, tier):
+    """real code: one element under a random history of n mixed @, Inv, add_/Retr updates stays a valid group element up to
+    accumulated round-off: | |q| - 1 | <= 4 n eps, scale > 0 and finite; float32 and float64, all four groups"""
+    import torch, pypose as pp
+    n_ops = 2000 if tier == 'quick' else 10000
+    fails = []; evals = 0; samples = []
+    torch.manual_seed(rng.randrange(1 << 30))
+    for g in GROUPS:
+        for dtype in (torch.float64, torch.float32):
+            eps = torch.finfo(dtype).eps
+            randn = getattr(pp, 'randn_' + g); randa = getattr(pp, 'randn_' + S.ALG[g])
+            X = randn(dtype=dtype); worst = 0.0
+            Ys = randn(64, sigma=0.3, dtype=dtype); As = randa(64, sigma=0.1, dtype=dtype)
+            for i in range(n_ops):
+                op = rng.randrange(4)
+                if op == 0: X = X @ Ys[i % 64]
+                elif op == 1: X = X.Inv()
+                elif op == 2: X = X.Retr(As[i % 64])
+                else: X.add_(As[(i * 7) % 64])
+                evals += 1
+                if i % 50 == 49 or i == n_ops - 1:
+                    t, q, s = S.parts(g, X.tensor())
+                    dq = abs(float(q.double().norm()) - 1.0)
+                    worst = max(worst, dq / ((i + 1) * eps))
+                    ok = dq <= 4 * (i + 1) * eps and bool(torch.isfinite(X.tensor()).all()) and (s is None or float(s) > 0)
+                    if not ok:
+                        fails.append(dict(clause='valid_after_history', signature=f'{g}/{str(dtype).split(".")[-1]}', step=i + 1, unit_err=dq, bound=4 * (i + 1) * eps)); break
+            samples.append(dict(group=g, dtype=str(dtype), worst_unit_error_over_n_eps=worst))
+    return dict(evaluations=evals, distinct_nontrivial=evals, rule='random operation histories; each operation is one evaluation; validity checked every 50 operations',
+                bound=f'{n_ops} operations per (group, dtype)', failures=fails[:8], samples=samples[:4])
